@@ -474,7 +474,10 @@ class ActiveTagValueProvider(UserDict):
         return self.use_value(value)
 
     def get(self, category, default=None):
-        value = self.data.get(category, default)
+        value = self.data.get(category, Unknown)
+        if value is Unknown:
+            # -- UNKNOWN CATEGORY: Use default as-is (is not a provided value).
+            return default
         return self.use_value(value)
 
     def values(self):
@@ -515,7 +518,8 @@ class CompositeActiveTagValueProvider(ActiveTagValueProvider):
                 break
             # -- FOUND-CATEGORY or NOT-FOUND:
             if value is Unknown:
-                value = default
+                # -- UNKNOWN CATEGORY: Use default as-is (is not a provided value).
+                return default
 
         return self.use_value(value)
 
